@@ -35,6 +35,7 @@ type typeDump struct {
 	Range    string      `json:"range,omitempty"`
 	Length   string      `json:"length,omitempty"`
 	Pattern  []string    `json:"pattern,omitempty"`
+	Posix    []string    `json:"posix,omitempty"` // POSIXPattern (oc-ext:posix-pattern), added for C05
 	Enum     string      `json:"enum,omitempty"`
 	Bit      string      `json:"bit,omitempty"`
 	Path     string      `json:"path,omitempty"`
@@ -158,7 +159,7 @@ func dumpType(t *yang.YangType, depth int) *typeDump {
 		return nil
 	}
 	d := &typeDump{Name: t.Name, Kind: yang.TypeKindToName[t.Kind], Units: t.Units, Default: t.Default, HasDef: t.HasDefault,
-		FD: t.FractionDigits, Range: showRangeText(t.Range), Length: showRangeText(t.Length), Pattern: t.Pattern, Enum: showEnum(t.Enum),
+		FD: t.FractionDigits, Range: showRangeText(t.Range), Length: showRangeText(t.Length), Pattern: t.Pattern, Posix: t.POSIXPattern, Enum: showEnum(t.Enum),
 		Bit: showEnum(t.Bit), Path: t.Path}
 	if t.IdentityBase != nil {
 		d.IdBase = identKey(t.IdentityBase)
